@@ -1,0 +1,172 @@
+//! Verification hooks (cargo feature `verif_hooks`): thin public wrappers over crate-private items.
+//!
+//! Nothing in here changes behaviour; with the feature off this module does not exist.
+#![allow(missing_docs)]
+
+use std::collections::HashMap;
+
+use crate::{
+    ast::Type,
+    circuit::{Circuit, CircuitBuilder, CircuitBuilderOptions, GateIndex, PanicReason},
+    token::{MetaInfo, SignedNumType, UnsignedNumType},
+};
+
+/// Public handle on the crate-private gate builder.
+pub struct Builder(CircuitBuilder);
+
+impl Builder {
+    pub fn new(input_gates: Vec<usize>, cache_gates: bool) -> Self {
+        Builder(CircuitBuilder::new(
+            input_gates,
+            HashMap::new(),
+            CircuitBuilderOptions { cache_gates },
+        ))
+    }
+    pub fn push_xor(&mut self, x: GateIndex, y: GateIndex) -> GateIndex {
+        self.0.push_xor(x, y)
+    }
+    pub fn push_and(&mut self, x: GateIndex, y: GateIndex) -> GateIndex {
+        self.0.push_and(x, y)
+    }
+    pub fn push_not(&mut self, x: GateIndex) -> GateIndex {
+        self.0.push_not(x)
+    }
+    pub fn push_or(&mut self, x: GateIndex, y: GateIndex) -> GateIndex {
+        self.0.push_or(x, y)
+    }
+    pub fn push_eq(&mut self, x: GateIndex, y: GateIndex) -> GateIndex {
+        self.0.push_eq(x, y)
+    }
+    pub fn push_mux(&mut self, s: GateIndex, x0: GateIndex, x1: GateIndex) -> GateIndex {
+        self.0.push_mux(s, x0, x1)
+    }
+    pub fn push_adder(&mut self, x: GateIndex, y: GateIndex, c: GateIndex) -> (GateIndex, GateIndex) {
+        self.0.push_adder(x, y, c)
+    }
+    pub fn push_multiplier(
+        &mut self,
+        x: GateIndex,
+        y: GateIndex,
+        z: GateIndex,
+        c: GateIndex,
+    ) -> (GateIndex, GateIndex) {
+        self.0.push_multiplier(x, y, z, c)
+    }
+    pub fn push_condswap(&mut self, s: GateIndex, x: GateIndex, y: GateIndex) -> (GateIndex, GateIndex) {
+        self.0.push_condswap(s, x, y)
+    }
+    pub fn push_eq_circuit(&mut self, x: &[GateIndex], y: &[GateIndex]) -> GateIndex {
+        self.0.push_eq_circuit(x, y)
+    }
+    pub fn push_addition_circuit(
+        &mut self,
+        x: &[GateIndex],
+        y: &[GateIndex],
+    ) -> (Vec<GateIndex>, GateIndex, GateIndex) {
+        self.0.push_addition_circuit(x, y)
+    }
+    pub fn push_negation_circuit(&mut self, x: &[GateIndex]) -> Vec<GateIndex> {
+        self.0.push_negation_circuit(x)
+    }
+    pub fn push_subtraction_circuit(
+        &mut self,
+        x: &[GateIndex],
+        y: &[GateIndex],
+        is_signed: bool,
+    ) -> (Vec<GateIndex>, GateIndex) {
+        self.0.push_subtraction_circuit(x, y, is_signed)
+    }
+    pub fn push_unsigned_division_circuit(
+        &mut self,
+        x: &[GateIndex],
+        y: &[GateIndex],
+    ) -> (Vec<GateIndex>, Vec<GateIndex>) {
+        self.0.push_unsigned_division_circuit(x, y)
+    }
+    pub fn push_signed_division_circuit(
+        &mut self,
+        x: &mut [GateIndex],
+        y: &mut [GateIndex],
+    ) -> (Vec<GateIndex>, Vec<GateIndex>) {
+        self.0.push_signed_division_circuit(x, y)
+    }
+    pub fn push_gt_circuit(&mut self, bits: usize, x: &[GateIndex], y: &[GateIndex]) -> GateIndex {
+        self.0.push_gt_circuit(bits, x, y)
+    }
+    pub fn push_comparator_circuit(
+        &mut self,
+        bits: usize,
+        x: &[GateIndex],
+        is_x_signed: bool,
+        y: &[GateIndex],
+        is_y_signed: bool,
+    ) -> (GateIndex, GateIndex) {
+        self.0
+            .push_comparator_circuit(bits, x, is_x_signed, y, is_y_signed)
+    }
+    pub fn push_sorter(
+        &mut self,
+        bits: usize,
+        x: &[GateIndex],
+        y: &[GateIndex],
+    ) -> (Vec<GateIndex>, Vec<GateIndex>) {
+        self.0.push_sorter(bits, x, y)
+    }
+    pub fn push_bitonic_merger(&mut self, bits: usize, ascending: bool, v: &mut [Vec<GateIndex>]) {
+        self.0.push_bitonic_merger(bits, ascending, v)
+    }
+    pub fn push_bitonic_sorter(&mut self, bits: usize, v: &mut [Vec<GateIndex>]) {
+        self.0.push_bitonic_sorter(bits, v)
+    }
+    /// `reason`: 1 = overflow, 2 = division by zero, 3 = out of bounds.
+    pub fn push_panic_if(&mut self, cond: GateIndex, reason: u8, meta: MetaInfo) {
+        let reason = match reason {
+            1 => PanicReason::Overflow,
+            2 => PanicReason::DivByZero,
+            _ => PanicReason::OutOfBounds,
+        };
+        self.0.push_panic_if(cond, reason, meta)
+    }
+    /// Runs `t` and `f` on separate copies of the panic record and merges them under `cond`,
+    /// the way `if`/`match` are compiled.
+    pub fn branch(
+        &mut self,
+        cond: GateIndex,
+        t: &mut dyn FnMut(&mut Builder),
+        f: &mut dyn FnMut(&mut Builder),
+    ) {
+        let panic_before = self.0.peek_panic().clone();
+        t(self);
+        let panic_t = self.0.replace_panic_with(panic_before.clone());
+        f(self);
+        let panic_f = self.0.replace_panic_with(panic_before);
+        let muxed = self.0.mux_panic(cond, &panic_t, &panic_f);
+        self.0.replace_panic_with(muxed);
+    }
+    pub fn build(self, output_gates: Vec<GateIndex>) -> Circuit {
+        self.0.build(output_gates)
+    }
+}
+
+pub fn unsigned_to_bits(n: u64, size: usize, bits: &mut Vec<bool>) {
+    crate::compile::unsigned_to_bits(n, size, bits)
+}
+
+pub fn signed_to_bits(n: i64, size: usize, bits: &mut Vec<bool>) {
+    crate::compile::signed_to_bits(n, size, bits)
+}
+
+pub fn wires_as_unsigned(wires: &[bool]) -> u64 {
+    crate::compile::wires_as_unsigned(wires)
+}
+
+/// Calls the cast helper `extend_to_bits` with a signed or unsigned integer type.
+pub fn extend_to_bits(v: &mut Vec<usize>, signed: bool, bits: usize) {
+    let ty = if signed {
+        Type::Signed(SignedNumType::I64)
+    } else {
+        Type::Unsigned(UnsignedNumType::U64)
+    };
+    crate::compile::verif_extend_to_bits(v, &ty, bits);
+    std::mem::forget(ty);
+}
